@@ -77,6 +77,36 @@ func c16cases(r *vk.Run) []c16case {
 		}
 		add(rng.Intn(len(dirs)), t)
 	}
+	// very many components within the 247-byte limit: runs of repeated slashes
+	// (empty components) around a few real ones, and long descents followed by
+	// one ascent more (a cap on the number of components examined would hide
+	// the tail)
+	for i := 0; i < r.Pick(300, 3000); i++ {
+		var sb strings.Builder
+		switch rng.Intn(3) {
+		case 0:
+			sb.WriteString([]string{".", "n", ".."}[rng.Intn(3)])
+			limit := 150 + rng.Intn(97)
+			for sb.Len() < limit {
+				sb.WriteString(strings.Repeat("/", 1+rng.Intn(60)))
+				sb.WriteString([]string{"..", "n", ".", "../..", "n/.."}[rng.Intn(5)])
+			}
+		case 1:
+			k := 1 + rng.Intn(45)
+			sep := []string{"/", "//", "/./"}[rng.Intn(3)]
+			sb.WriteString(strings.Repeat("n"+sep, k))
+			sb.WriteString(strings.Repeat("../", k+rng.Intn(4)))
+			sb.WriteString("n")
+		default:
+			// all slashes but the ends
+			sb.WriteString("n" + strings.Repeat("/", 200+rng.Intn(40)) + []string{"..", "../..", "../../.."}[rng.Intn(3)])
+		}
+		t := sb.String()
+		if len(t) > 247 {
+			t = strings.TrimRight(t[:247], "/")
+		}
+		add(rng.Intn(len(dirs)), t)
+	}
 	return cases
 }
 
@@ -224,6 +254,79 @@ func c16Disk(r *vk.Run) {
 			r.Inconclusive("c16-disk-transition-sensor-dead")
 		}
 	})
+	// ---- route 3: the real Transition is asked to REPLACE an existing valid
+	// link (known from a real scan, so Old is the scanned SymbolicLink entry) by
+	// a link with each target; accepted iff the new link is on disk afterwards.
+	replRoot := filepath.Join(base, "replace")
+	if err := os.MkdirAll(filepath.Join(replRoot, "d", "e"), 0o755); err != nil {
+		fmt.Println("ERROR: c16Disk:", err)
+		r.Inconclusive("c16-disk-setup")
+		return
+	}
+	for _, c := range cases {
+		if err := os.Symlink("n", filepath.Join(replRoot, filepath.FromSlash(c.link))); err != nil {
+			fmt.Println("ERROR: c16Disk:", err)
+			r.Inconclusive("c16-disk-setup")
+			return
+		}
+	}
+	r.Guard(map[string]string{"route": "replace", "links": fmt.Sprint(len(cases))}, func() {
+		st, err := fsx.Cold(replRoot, fsx.DefaultScanConfig())
+		if err != nil {
+			fmt.Println("ERROR: c16Disk: scan failed:", err)
+			r.Inconclusive("c16-disk-scan-failed")
+			return
+		}
+		var changes []*core.Change
+		var used []c16case
+		for _, c := range cases {
+			old := st.Snapshot.Content
+			for _, comp := range strings.Split(c.link, "/") {
+				if old == nil {
+					break
+				}
+				old = old.Contents[comp]
+			}
+			if old == nil || old.Kind != core.EntryKind_SymbolicLink || old.Target != "n" {
+				r.Inconclusive("c16-disk-valid-link-not-scanned")
+				continue
+			}
+			if c.target == "n" {
+				continue // not a change
+			}
+			changes = append(changes, &core.Change{Path: c.link, Old: old, New: &core.Entry{Kind: core.EntryKind_SymbolicLink, Target: c.target}})
+			used = append(used, c)
+		}
+		results, problems, _ := core.Transition(context.Background(), replRoot, changes, st.Cache,
+			core.SymbolicLinkMode_SymbolicLinkModePortable, 0o600, 0o700, nil, st.Snapshot.DecomposesUnicode, noFiles{})
+		if len(results) != len(changes) {
+			fmt.Printf("ERROR: c16Disk: Transition returned %d results for %d changes\n", len(results), len(changes))
+			r.Inconclusive("c16-disk-transition-results")
+			return
+		}
+		r.Count("disk_replace_problems", int64(len(problems)))
+		replaced, refused := 0, 0
+		for _, c := range used {
+			full := filepath.Join(replRoot, filepath.FromSlash(c.link))
+			got, err := os.Readlink(full)
+			switch {
+			case err == nil && got == c.target:
+				replaced++
+				c16judge(r, "replace", c, true)
+			case err == nil && got != "n":
+				r.Violation(map[string]string{"rule": "normalized-differs", "route": "replace"},
+					fmt.Sprintf("asked to replace link %q (target \"n\") by target %q, Transition left target %q", c.link, c.target, got),
+					map[string]string{"route": "replace", "link": c.link, "target": c.target, "created": got})
+			default:
+				// old link still there, or nothing there: the new link was not accepted
+				refused++
+				c16judge(r, "replace", c, false)
+			}
+		}
+		if replaced == 0 || refused == 0 {
+			r.Inconclusive("c16-disk-replace-sensor-dead")
+		}
+	})
 	r.Sample(map[string]string{"route": "scan+transition", "links_on_disk": fmt.Sprint(len(onDisk)), "links_requested": fmt.Sprint(len(cases)), "example_link": "d/l", "example_target": "./../..", "reference": "escapes"})
-	r.Assume("disk routes: a link is accepted by a scan iff the real core.Scan (portable mode, default probing) reports entry kind SymbolicLink for it, and accepted by a transition iff the link exists on disk after the real core.Transition was asked to create it in portable mode; links with an empty target cannot exist on Linux and are driven through the transition route only")
+	r.Assume("disk routes: a link is accepted by a scan iff the real core.Scan (portable mode, default probing) reports entry kind SymbolicLink for it, and accepted by a transition iff the link exists on disk after the real core.Transition was asked to create it in portable mode; links with an empty target cannot exist on Linux and are driven through the transition routes only; the replace route starts from a valid link \"n\" at every link path, scanned by the real core.Scan, and asks the real core.Transition to change its target")
 }
